@@ -385,15 +385,22 @@ def run(ctx):
     rep = report.Report('C09', 'model_checking')
     bound = 1 if ctx.quick else 2
     params = param_list(ctx)
+    one = [q for q in params if q['pushes'] in (['burst'], ['pingx'], ['ping_msg']) and q['nsend'] == (3 if ctx.quick else 2)] + \
+          [q for q in params if q['mode'] in ('upgrade_wrong', 'upgrade_refused') and q['pushes'] == ['burst'] and q['nsend'] == 3]
     if ctx.quick:
-        deep = [q for q in params if q['pushes'] in (['burst'], ['pingx'], ['ping_msg']) and q['nsend'] == 3] + \
-               [q for q in params if q['mode'] in ('upgrade_wrong', 'upgrade_refused') and q['pushes'] == ['burst'] and q['nsend'] == 3]
+        st, viols, samples, gate = core.run_search(Conduct, params, 0, ctx.workers, ctx.seed)
+        st2, viols2, samples2, gate2 = core.run_search(Conduct, one, 1, ctx.workers, ctx.seed)
     else:
-        # two deviations only where the two scripts really race: one burst against two sends, on each transport
-        deep = [q for q in params if q['pushes'] == ['burst'] and q['nsend'] == 2 and q['mode'] in ('polling', 'websocket', 'upgrade_ok')] + \
-               [q for q in params if q.get('piggy') and q['nsend'] == 1 and q['pushes'] == []]
-    st, viols, samples, gate = core.run_search(Conduct, params, bound - 1, ctx.workers, ctx.seed)
-    st2, viols2, samples2, gate2 = core.run_search(Conduct, deep, bound, ctx.workers, ctx.seed)
+        # all interleavings on the full (length <= 3) scenario set; one deviation on the single-push scenarios and the
+        # piggy-backed handshakes; two deviations on the racing core (one burst against two sends, per transport)
+        one += [q for q in params if q.get('piggy')]
+        two = [q for q in params if q['pushes'] == ['burst'] and q['nsend'] == 2 and q['mode'] in ('polling', 'websocket')
+               and q['impl'] in ('sync', 'async')][:4]
+        st, viols, samples, gate = core.run_search(Conduct, params, 0, ctx.workers, ctx.seed)
+        st1, viols1, _, _ = core.run_search(Conduct, one, 1, ctx.workers, ctx.seed)
+        st.merge(st1)
+        viols += viols1
+        st2, viols2, samples2, gate2 = core.run_search(Conduct, two, 2, ctx.workers, ctx.seed)
     st.merge(st2)
     viols += viols2
     for v in viols:
